@@ -698,7 +698,7 @@ def doc_shape(b):
     (those are wf_fields' business).  An ACCEPTED ASCII string outside this shape breaks the format."""
     import re as _re
     try:
-        s = b.decode("ascii")
+        s = go_trim_unicode(b).decode("utf-8")      # Go's TrimSpace also removes Unicode white space at the ends
     except UnicodeDecodeError:
         return True
     s = _re.sub(r"[\t\n\f\r ]+", " ", s).strip(" \t\n\v\f\r")
@@ -711,7 +711,7 @@ def doc_shape(b):
     def val(t, names, plus=True):
         if _re.fullmatch(r"\+?[0-9]+" if plus else r"[0-9]+", t):
             return True
-        return t.upper() in names
+        return "".join(c.upper() if "a" <= c <= "z" else c for c in t) in names     # ASCII case folding only
 
     def item(t, names):
         if "/" in t:
@@ -787,7 +787,7 @@ def judge(b, stream, expect, go):
         why += ["trigger fields: " + w for w in wf_fields(t)]
         if max(b, default=0) < 128 and not token_rule(b):
             why.append("accepted although it does not have 6 or 7 fields and is not a macro")
-        elif max(b, default=0) < 128 and not doc_shape(b):
+        elif not doc_shape(b):
             why.append("accepted although a field has none of the documented syntactic forms (value, name of that field, list, range, step; L, L-n, nW, LW; dL, d#k)")
         tv = list(f[0])
         if all(len(v) == 0 for v in tv):
